@@ -182,6 +182,10 @@ SHAPES = [
     ('LLVAR,PAN', 'LLVAR', 0, None, 'PAN', None, None),
     ('LLLVAR,PAN', 'LLLVAR', 0, None, 'PAN', None, None),
     ('LLVAR,PAN-PREFIX', 'LLVAR', 0, None, 'PAN-PREFIX', None, None),
+    # `"field_python_type": "string"` is the documented explicit spelling of a text element: masking applies all the same
+    ('LLVAR,PAN,explicit string type', 'LLVAR', 0, 'string', 'PAN', None, None),
+    ('LLVAR,PAN-PREFIX,explicit string type', 'LLVAR', 0, 'string', 'PAN-PREFIX', None, None),
+    ('LLVAR,text,explicit string type', 'LLVAR', 0, 'string', None, None, None),
     ('LLLVAR,PDS', 'LLLVAR', 0, None, 'PDS', None, None),
     ('LLLVAR,ICC', 'LLLVAR', 255, None, 'ICC', None, None),
     ('LLVAR,DE43', 'LLVAR', 0, None, 'DE43', None, r'(?P<DE43_NAME>.+?) *\\(?P<DE43_ADDRESS>.+?) *\\(?P<DE43_SUBURB>.+?) *\\(?P<DE43_POSTCODE>.{10})(?P<DE43_STATE>.{3})(?P<DE43_COUNTRY>.{3})'),
@@ -302,7 +306,7 @@ def mk_dec_total(shape):
             j = E.fresh_int('j')
             E.prove(tag + '/binary-value-is-its-own-bytes-untouched', z3.Implies(z3.And(j >= 0, j < v.n), I(v.at(j)) == I(data.at(ls + j))), 'P')
             return
-        if ptype is None and proc in (None, 'DE43', 'PDS'):
+        if ptype in (None, 'string') and proc in (None, 'DE43', 'PDS'):
             # value is the (decoded) content of its own bytes data[ls : ls+L]
             if not (isinstance(v, VSeq) and v.kind == 'str'):
                 E.prove(tag + '/value-is-text', False, 'P')
